@@ -7,9 +7,10 @@ NONE = -9999
 
 def cenc(x, k):
     """coefficient -> JSON (k > 0: k-bit list, flagged with 2 when out of the ring; k = 0: the int)"""
+    if not isinstance(x, int) or isinstance(x, bool): return [3] if k else -999998       # a coefficient is stored as a plain int
     if k == 0: return int(x)
     out = [(x >> j) & 1 for j in range(k)]
-    if not isinstance(x, int) or x < 0 or (x >> k): out = out + [2]
+    if x < 0 or (x >> k): out = out + [2]
     return out
 def venc(vals, k): return [cenc(x, k) for x in vals]
 def penc(p, k):
